@@ -72,6 +72,7 @@ func replyTo(q *dns.Msg, aa bool) *dns.Msg {
 }
 
 func onAll(w *world, r authsim.Rule) {
+	r.Action = w.recording(r.Action)
 	for _, s := range w.evils {
 		s.AddRule(r)
 	}
